@@ -4,6 +4,11 @@ import FormulaicVerif.Proofs.C10Cols
 import FormulaicVerif.Proofs.C10Vars
 import FormulaicVerif.Proofs.C10Subset
 import FormulaicVerif.Proofs.C10Sort
+import FormulaicVerif.Proofs.C10Factors
+import FormulaicVerif.Proofs.C10Source
+import FormulaicVerif.Proofs.C10Order
+import FormulaicVerif.Proofs.C10Specs
+import FormulaicVerif.Gen.SpecMetaTable
 /-! # C10 — Model-spec metadata indexes the generated columns truthfully
 
 Property theorems only (helper lemmas: `Proofs/C10Dict.lean`, `Proofs/C10Split.lean`,
@@ -20,10 +25,17 @@ open FormulaicVerif.Model.SpecMeta FormulaicVerif.Proofs.C10
 /-! ### a concrete instance used by the non-vacuity examples: `1 + B:A + b:a:C(A) + G`
 (`B:A` and `b:a:C(A)` are not in alphabetical order, `G` generates no column) -/
 
+/-- a data column used as a value / a transform used as a callable -/
+def dv (n : Str) : Var := ⟨n, true, false, some "data".toList⟩
+def tv (n : Str) : Var := ⟨n, false, true, some "transforms".toList⟩
+def sf (e : Str) (vs : List Var) : SFactor := ⟨e, some vs⟩
+
 def demo : Structure :=
   [ ⟨[['1']], [[]], [['I']]⟩,
-    ⟨[['B'], ['A']], [[[['B']], [['A']]]], [['B', 'y', ':', 'A', 'a'], ['B', 'y', ':', 'A', 'b']]⟩,
-    ⟨[['b'], ['a'], ['C', '(', 'A', ')']], [[[['b']], [['a']], [['A'], ['C']]]],
+    ⟨[['B'], ['A']], [[sf ['B'] [dv ['B']], sf ['A'] [dv ['A']]]],
+      [['B', 'y', ':', 'A', 'a'], ['B', 'y', ':', 'A', 'b']]⟩,
+    ⟨[['b'], ['a'], ['C', '(', 'A', ')']],
+      [[sf ['b'] [dv ['b']], sf ['a'] [dv ['a']], sf ['C', '(', 'A', ')'] [dv ['A'], tv ['C']]]],
       [['b', ':', 'a', ':', 'A', 'a'], ['b', ':', 'a', ':', 'A', 'b']]⟩,
     ⟨[['G']], [], []⟩ ]
 
@@ -280,5 +292,648 @@ example : (subset (demo.map (·.term)) demo [[['A'], ['B']], [['1']]]).toOption.
 
 /-- a term that is not in the spec: `ValueError` -/
 example : subset (demo.map (·.term)) demo [[['z']]] = .error .valueError := by decide
+
+/-! ## the factor side, the variable sets -/
+
+/-- C10.6  The factor side, for EVERY formula (repeated terms included; every `Term` holds a factor
+once, as `Term.__init__` guarantees). `term_factors` has one entry per class of equal non-empty
+terms — keyed by the first `Term` object of the class (`firsts`), in formula order — holding that
+term's own factors (so, without a repeated term: one entry per term); `factors` holds exactly the
+factors of the terms, each once; `factor_terms[f]` is the list of the (first) terms that contain `f`
+(no entry when there is none: its keys are exactly `factors`); and the two maps are mutually
+inverse: for every term `t` of the formula, looked up by any equal `Term`,
+`f ∈ term_factors[t] ⟺ f ∈ t ⟺ t ∈ factor_terms[f]`. -/
+theorem factor_maps_inverse (F : List Term) (hn : ∀ t ∈ F, t.Nodup) :
+    termFactors F = ((firsts F).filter nonEmpty).map (fun t => (t, t)) ∧
+    (DistinctF F → termFactors F = (F.filter (fun t => !t.isEmpty)).map (fun t => (t, t))) ∧
+    ((∀ f, f ∈ factors F ↔ ∃ t ∈ F, f ∈ t) ∧ (factors F).Nodup) ∧
+    (∀ f, SDict.lookup (factorTerms F) f =
+        if (firsts F).filter (fun t => t.contains f) = [] then none
+        else some ((firsts F).filter (fun t => t.contains f))) ∧
+    (∀ f, SDict.lookup (factorTerms F) f = none ↔ f ∉ factors F) ∧
+    (∀ t ∈ F, ∀ u : Term, sortStrs u = sortStrs t → ∀ f,
+      ((∃ fs, (termFactors F).lookup (.term u) = some fs ∧ f ∈ fs) ↔ f ∈ t) ∧
+      ((∃ ts, SDict.lookup (factorTerms F) f = some ts ∧ ∃ w ∈ ts, sortStrs w = sortStrs t) ↔ f ∈ t)) := by
+  obtain ⟨hd, hsub, hrep⟩ := firsts_props F
+  have hn' := firsts_nodup_terms F hn
+  have hft := factorTerms_lookup_any F hn
+  refine ⟨termFactors_eq_firsts F hn, fun hF => termFactors_eq F hF hn,
+    ⟨mem_factors F, nodup_factors F⟩, hft, ?_, ?_⟩
+  · intro f
+    rw [hft f, mem_factors]
+    constructor
+    · intro h
+      split at h
+      · rename_i he
+        rintro ⟨t, ht, hf⟩
+        obtain ⟨w, hw, e⟩ := hrep t ht
+        have hfw : f ∈ w := (mem_of_sortStrs_eq e f).mpr hf
+        have : w ∈ (firsts F).filter (fun t => t.contains f) := List.mem_filter.mpr ⟨hw, by simpa using hfw⟩
+        rw [he] at this; cases this
+      · cases h
+    · intro h
+      have : (firsts F).filter (fun t => t.contains f) = [] := by
+        rw [List.filter_eq_nil_iff]
+        intro t ht hc
+        exact h ⟨t, hsub t ht, by simpa using hc⟩
+      rw [if_pos this]
+  · intro t ht u hu f
+    obtain ⟨w, hw, e⟩ := hrep t ht
+    constructor
+    · constructor
+      · rintro ⟨fs, hl, hf⟩
+        rw [termFactors_firsts F hn, termFactors_eq (firsts F) hd hn'] at hl
+        unfold TDict.lookup at hl
+        obtain ⟨en, hen, rfl⟩ := Option.map_eq_some_iff.mp hl
+        have hm := List.mem_of_find?_eq_some hen
+        have hp := List.find?_some hen
+        obtain ⟨t', _, rfl⟩ := List.mem_map.mp hm
+        simp only [keyMatches_term, beq_iff_eq] at hp
+        exact (mem_of_sortStrs_eq (hp.trans hu) f).mp hf
+      · intro hf
+        have hfw : f ∈ w := (mem_of_sortStrs_eq e f).mpr hf
+        have hne : w ≠ [] := fun e' => by rw [e'] at hfw; cases hfw
+        refine ⟨w, ?_, hfw⟩
+        rw [termFactors_firsts F hn]
+        exact termFactors_lookup' (firsts F) hd hn' w hw hne u (hu.trans e.symm)
+    · constructor
+      · rintro ⟨ts, hl, x, hx, ex⟩
+        rw [hft f] at hl
+        split at hl
+        · cases hl
+        · cases hl
+          have : f ∈ x := by simpa using (List.mem_filter.mp hx).2
+          exact (mem_of_sortStrs_eq ex f).mp this
+      · intro hf
+        have hfw : f ∈ w := (mem_of_sortStrs_eq e f).mpr hf
+        have hmem : w ∈ (firsts F).filter (fun t => t.contains f) := List.mem_filter.mpr ⟨hw, by simpa using hfw⟩
+        refine ⟨_, ?_, w, hmem, e⟩
+        rw [hft f, if_neg (fun e' => by rw [e'] at hmem; cases hmem)]
+
+/-- a formula that repeats a term (`a:b` and `b:a`; `x` twice): one entry for each class -/
+example : termFactors [[['a'], ['b']], [['x']], [['b'], ['a']], [['x']]]
+      = [([['a'], ['b']], [['a'], ['b']]), ([['x']], [['x']])] ∧
+    SDict.lookup (factorTerms [[['a'], ['b']], [['x']], [['b'], ['a']], [['x']]]) ['b'] = some [[['a'], ['b']]] := by
+  decide
+
+/-- every recorded scoped factor with the same expression carries the same variables (there is one
+`EvaluatedFactor` per expression in the materializer's factor cache) -/
+def Coherent (st : Structure) : Prop :=
+  ∀ sf ∈ allSF st, ∀ sf' ∈ allSF st, sf.expr = sf'.expr → sf.vars = sf'.vars
+
+instance (st : Structure) : Decidable (Coherent st) := by unfold Coherent; infer_instance
+
+/-- C10.7  `factor_variables`. It raises `TypeError` exactly when some recorded scoped factor has no
+variable record (`None`: a literal factor); otherwise it has one entry per factor of the formula, and
+the names in `factor_variables[f]` are exactly the names recorded by the scoped factors whose
+expression is `f` (none twice; empty for a factor that was never evaluated). -/
+theorem factor_variables_exact (F : List Term) (st : Structure) :
+    ((∃ sf ∈ allSF st, sf.vars = none) → factorVariables F st = .error .typeError) ∧
+    ((∀ sf ∈ allSF st, sf.vars ≠ none) →
+      ∃ d, factorVariables F st = .ok d ∧ d.map (·.1) = factors F ∧
+        ∀ f ∈ factors F, ∃ vs, SDict.lookup d f = some vs ∧ (vs.map (·.name)).Nodup ∧
+          ∀ v, v ∈ vs.map (·.name) ↔ ∃ sf ∈ allSF st, sf.expr = f ∧ sfUses sf v) := by
+  constructor
+  · intro h
+    unfold factorVariables
+    rw [factorVarLists_eq, foldlM_stepSF_err _ _ h]
+    rfl
+  · intro h
+    unfold factorVariables
+    rw [factorVarLists_eq, foldlM_stepSF_ok _ _ h]
+    refine ⟨_, rfl, ?_, ?_⟩
+    · simp [List.map_map, Function.comp_def]
+    · intro f hf
+      refine ⟨_, SDict.lookup_map_key _ _ f hf, nodup_names_unionVars _, ?_⟩
+      intro v
+      rw [mem_names_unionVars, foldl_extendAt_lookup]
+      simp only [SDict.lookup, List.find?_nil, Option.map_none, Option.getD_none, List.nil_append,
+        List.mem_singleton, exists_eq_left]
+      constructor
+      · rintro ⟨w, hw, rfl⟩
+        split at hw
+        · rename_i vs' he
+          by_cases hn : (allSF st).filter (fun sf => sf.expr == f) = []
+          · rw [if_pos hn] at he; cases he
+          · rw [if_neg hn] at he
+            cases he
+            obtain ⟨sf, hsf, hwv⟩ := List.mem_flatMap.mp hw
+            obtain ⟨hsf1, hsf2⟩ := List.mem_filter.mp hsf
+            refine ⟨sf, hsf1, by simpa using hsf2, ?_⟩
+            unfold varsOf at hwv
+            cases hv : sf.vars with
+            | none => rw [hv] at hwv; cases hwv
+            | some ws => rw [hv] at hwv; exact ⟨ws, hv, w, hwv, rfl⟩
+        · cases hw
+      · rintro ⟨sf, hsf, hexpr, ws, hv, w, hw, rfl⟩
+        have hmem : sf ∈ (allSF st).filter (fun sf => sf.expr == f) :=
+          List.mem_filter.mpr ⟨hsf, by simpa using hexpr⟩
+        have hne : (allSF st).filter (fun sf => sf.expr == f) ≠ [] := fun e => by rw [e] at hmem; cases hmem
+        refine ⟨w, ?_, rfl⟩
+        rw [if_neg hne]
+        apply List.mem_flatMap.mpr
+        exact ⟨sf, hmem, by simp [varsOf, hv, hw]⟩
+
+/-- C10.8  `term_variables` against the factor side. `term_variables[t]` (looked up by any equal
+`Term`) holds exactly the names recorded by the scoped factors of the row of `t`; and when
+`factor_variables` succeeds and every expression has one variable record (`Coherent`), that is the
+union of `factor_variables[f]` over the factors `f` evaluated for the row. -/
+theorem term_variables_from_factors (st : Structure) (h : DistinctTerms st) :
+    (∀ r ∈ st, ∀ u : Term, sortStrs u = sortStrs r.term →
+      (termVariables st).lookup (.term u) = some (rowVars r)) ∧
+    (∀ r : Row, (rowVars r).Nodup ∧ ∀ v, v ∈ rowVars r ↔ ∃ sf ∈ rowSF r, sfUses sf v) ∧
+    (∀ F d, factorVariables F st = .ok d → Coherent st →
+      (∀ r ∈ st, ∀ sf ∈ rowSF r, sf.expr ∈ factors F) →
+      ∀ r ∈ st, ∀ v, v ∈ rowVars r ↔
+        ∃ sf ∈ rowSF r, ∃ vs, SDict.lookup d sf.expr = some vs ∧ v ∈ vs.map (·.name)) := by
+  refine ⟨?_, ?_, ?_⟩
+  · intro r hr u hu
+    rw [termVariables_eq st h]
+    exact rowMap_lookup rowVars h hr u hu
+  · intro r
+    exact ⟨nodup_names_unionVars _, mem_rowVars r⟩
+  · intro F d hd hco hsc r hr v
+    have hall : ∀ sf ∈ allSF st, sf.vars ≠ none := by
+      intro sf hsf hnone
+      rw [(factor_variables_exact F st).1 ⟨sf, hsf, hnone⟩] at hd
+      cases hd
+    obtain ⟨d', hd', _, hlook⟩ := (factor_variables_exact F st).2 hall
+    rw [hd] at hd'
+    cases hd'
+    rw [mem_rowVars]
+    constructor
+    · rintro ⟨sf, hsf, huse⟩
+      obtain ⟨vs, hvs, _, hmem⟩ := hlook sf.expr (hsc r hr sf hsf)
+      exact ⟨sf, hsf, vs, hvs, (hmem v).mpr ⟨sf, rowSF_sub hr hsf, rfl, huse⟩⟩
+    · rintro ⟨sf, hsf, vs, hvs, hv⟩
+      obtain ⟨vs', hvs', _, hmem⟩ := hlook sf.expr (hsc r hr sf hsf)
+      rw [hvs] at hvs'
+      cases hvs'
+      obtain ⟨sf', hsf', hexpr, ws, hws, huse⟩ := (hmem v).mp hv
+      refine ⟨sf, hsf, ws, ?_, huse⟩
+      rw [hco sf (rowSF_sub hr hsf) sf' hsf' hexpr.symm]
+      exact hws
+
+example : Coherent demo := by decide
+
+/-- C10.9  `variable_terms` is the reverse of `term_variables`: `variable_terms[v]` is the list, in
+row order, of the terms of the rows whose variables include `v` (no entry when there is none), so
+`t ∈ variable_terms[v] ⟺ v ∈ term_variables[t]` for every row; and `variable_indices` never raises
+and `variable_indices[v]` is the sorted union, over `t ∈ variable_terms[v]`, of `term_indices[t]`
+(C10.4 says which columns that is). -/
+theorem variable_terms_inverse (st : Structure) (h : DistinctTerms st) (v : Str) :
+    SDict.lookup (variableTerms st) v =
+      (if usesTerms v st = [] then none else some (usesTerms v st)) ∧
+    (∀ r ∈ st, (∃ u ∈ usesTerms v st, sortStrs u = sortStrs r.term) ↔ v ∈ rowVars r) ∧
+    (∃ vi, variableIndices st = .ok vi ∧
+      vi.lookup v = (SDict.lookup (variableTerms st) v).map (fun ts =>
+        sortNats (((ts.map (fun t => ((termIndices st).lookup (.term t)).getD [])).flatten).foldl addNat []))) := by
+  refine ⟨variableTerms_lookup st h v, ?_, ⟨_, variableIndices_eq st h, by
+    rw [SDict.lookup_map]; rfl⟩⟩
+  intro r hr
+  unfold usesTerms
+  constructor
+  · rintro ⟨u, hu, he⟩
+    obtain ⟨r', hr', rfl⟩ := List.mem_map.mp hu
+    obtain ⟨hm, hc⟩ := List.mem_filter.mp hr'
+    have : r' = r := row_unique h hm hr he
+    subst this
+    simpa using hc
+  · intro hv
+    exact ⟨r.term, List.mem_map_of_mem (List.mem_filter.mpr ⟨hr, by simpa using hv⟩), rfl⟩
+
+/-- C10.10  `variables`, `variables_by_source`, `required_variables`. `variables` holds every name
+of `term_variables` once; `variables_by_source` is a partition of it: its keys are pairwise
+different, no class is empty, the class filed under a source holds exactly the variables of that
+source (hence every variable is in the class of its own source and in no other), and
+`required_variables` is the class of the source `"data"` (empty when there is none). -/
+theorem variables_by_source_partition (st : Structure) :
+    ((variables st).map (·.name)).Nodup ∧
+    (∀ v, v ∈ (variables st).map (·.name) ↔ ∃ e ∈ termVariablesFull st, ∃ w ∈ e.2, w.name = v) ∧
+    ((variablesBySource st).map (·.1)).Nodup ∧
+    (∀ e ∈ variablesBySource st,
+      e.2 ≠ [] ∧ e.2 = ((variables st).filter (fun w => w.source == e.1)).map (·.name)) ∧
+    (∀ w ∈ variables st, ∃ e ∈ variablesBySource st, e.1 = w.source ∧ w.name ∈ e.2) ∧
+    requiredVariables st = ((variables st).filter (fun w => w.source == some "data".toList)).map (·.name) := by
+  have hnd : ((variables st).map (·.name)).Nodup := nodup_names_unionVars _
+  have hkeys : ((variablesBySource st).map (·.1)).Nodup :=
+    bySource_keys_nodup (variables st) [] List.nodup_nil
+  have hlook : ∀ src, lookupSrc (variablesBySource st) src =
+      if (variables st).filter (fun w => w.source == src) = [] then none
+      else some (((variables st).filter (fun w => w.source == src)).map (·.name)) := by
+    intro src
+    unfold variablesBySource
+    rw [bySource_lookup (variables st) [] src hnd (by simp [lookupSrc])]
+    simp [lookupSrc]
+  refine ⟨hnd, ?_, hkeys, ?_, ?_, ?_⟩
+  · intro v
+    unfold variables
+    rw [mem_names_unionVars]
+    constructor
+    · rintro ⟨s, hs, w, hw, rfl⟩
+      obtain ⟨e, he, rfl⟩ := List.mem_map.mp hs
+      exact ⟨e, he, w, hw, rfl⟩
+    · rintro ⟨e, he, w, hw, rfl⟩
+      exact ⟨e.2, List.mem_map_of_mem he, w, hw, rfl⟩
+  · intro e he
+    have h1 := lookupSrc_of_mem _ hkeys e he
+    rw [hlook e.1] at h1
+    split at h1
+    · cases h1
+    · rename_i hne
+      have h2 := Option.some.inj h1
+      refine ⟨?_, h2.symm⟩
+      rw [← h2]
+      simpa using hne
+  · intro w hw
+    have hmem : w ∈ (variables st).filter (fun x => x.source == w.source) :=
+      List.mem_filter.mpr ⟨hw, by simp⟩
+    have hne : (variables st).filter (fun x => x.source == w.source) ≠ [] :=
+      fun e => by rw [e] at hmem; cases hmem
+    have h1 := hlook w.source
+    rw [if_neg hne] at h1
+    exact ⟨_, mem_of_lookupSrc _ _ _ h1, rfl, List.mem_map_of_mem hmem⟩
+  · unfold requiredVariables
+    have h1 := hlook (some "data".toList)
+    unfold lookupSrc at h1
+    cases hf : (variablesBySource st).find? (fun e => e.1 == some "data".toList) with
+    | none =>
+      rw [hf] at h1
+      simp only [Option.map_none] at h1
+      split at h1
+      · rename_i he; rw [he]; rfl
+      · cases h1
+    | some e =>
+      rw [hf] at h1
+      simp only [Option.map_some] at h1
+      split at h1
+      · cases h1
+      · exact Option.some.inj h1
+
+example : variablesBySource demo =
+    [(some "data".toList, [['B'], ['A'], ['b'], ['a']]), (some "transforms".toList, [['C']])] ∧
+    requiredVariables demo = [['B'], ['A'], ['b'], ['a']] := by decide
+
+/-! ## every key type of `get_slice`, `_TermMapping.get`, hand-written `Term`s -/
+
+/-- C10.11  `get_slice` with every kind of identifier: a slice comes back as it is; an int `i`
+gives `slice(i, i + 1)` (no range check); a `Term` / a string are answered by the term and column
+maps (C10.3a-c apply: `getSlice`); any other hashable object raises `ValueError`, an unhashable one
+`TypeError`. On a spec whose structure is not populated a slice and an int are still answered,
+everything else raises `RuntimeError`. -/
+theorem get_slice_every_key (st : Structure) :
+    (∀ s, getSliceAny st (.slice s) = .ok s) ∧
+    (∀ i, getSliceAny st (.int i) = .ok ⟨some i, some (i + 1), none⟩) ∧
+    (∀ t, getSliceAny st (.term t) = (getSlice st (.term t)).map PySlice.ofNats) ∧
+    (∀ s, getSliceAny st (.str s) = (getSlice st (.str s)).map PySlice.ofNats) ∧
+    getSliceAny st .other = .error .valueError ∧
+    getSliceAny st .unhashable = .error .typeError ∧
+    (∀ (sp : Spec), sp.structure? = some st → ∀ k, sp.getSlice k = getSliceAny st k) ∧
+    (∀ (sp : Spec), sp.structure? = none → ∀ k,
+      sp.getSlice k = match k with
+        | .slice s => .ok s
+        | .int i => .ok ⟨some i, some (i + 1), none⟩
+        | _ => .error .runtimeError) := by
+  refine ⟨fun _ => rfl, fun _ => rfl, fun _ => rfl, fun _ => rfl, rfl, rfl, ?_, ?_⟩
+  · intro sp hsp k
+    cases k <;> simp [Spec.getSlice, Spec.st, hsp, getSliceAny, bind, Except.bind]
+  · intro sp hsp k
+    cases k <;> simp [Spec.getSlice, Spec.st, hsp, bind, Except.bind]
+
+/-- a column position selects exactly that column, the printed form of a term its block -/
+example : getSliceAny demo (.int 2) = .ok ⟨some 2, some 3, none⟩ ∧
+    getSliceAny demo (.str ['B', ':', 'A']) = .ok ⟨some 1, some 3, none⟩ ∧
+    getSliceAny demo (.int (-1)) = .ok ⟨some (-1), some 0, none⟩ := by decide
+
+/-- C10.12  `_TermMapping.get(key)` never raises: it is `self[key]` with `KeyError` turned into
+`None`. -/
+theorem term_mapping_get {α : Type} (d : TDict α) (k : Key) :
+    (∀ v, d.get k = .ok v → d.getDefault k = .ok (some v)) ∧
+    (d.get k = .error .keyError → d.getDefault k = .ok none) ∧
+    (∀ e, d.get k = .error e → e = .keyError) ∧
+    ∃ r, d.getDefault k = .ok r := by
+  have herr : ∀ e, d.get k = .error e → e = .keyError := by
+    intro e he
+    unfold TDict.get at he
+    split at he
+    · cases he
+    · split at he
+      · split at he
+        · cases he
+        · cases he; rfl
+      · cases he; rfl
+  refine ⟨fun v hv => by simp [TDict.getDefault, hv], fun h => by simp [TDict.getDefault, h], herr, ?_⟩
+  cases hg : d.get k with
+  | ok v => exact ⟨some v, by simp [TDict.getDefault, hg]⟩
+  | error e =>
+    have := herr e hg
+    subst this
+    exact ⟨none, by simp [TDict.getDefault, hg]⟩
+
+/-- every factor of every recorded term occurs once (`Term.__init__` drops repeated factors) -/
+def TermsNodup (st : Structure) : Prop := ∀ r ∈ st, r.term.Nodup
+
+instance (st : Structure) : Decidable (TermsNodup st) := by unfold TermsNodup; infer_instance
+
+/-- C10.3a''  A `Term` object written by hand from ANY list of factor expressions that has the same
+members as a recorded term — whatever their order, however often they are repeated
+(`Term.__init__` keeps the first occurrence of each) — finds exactly that term's block. -/
+theorem lookup_by_made_term (st : Structure) (h : DistinctTerms st) (hn : TermsNodup st) (b : Row × Nat)
+    (hb : b ∈ blocks 0 st) (exprs : List Str) (hu : ∀ e, e ∈ exprs ↔ e ∈ b.1.term) :
+    (termIndices st).get (.term (mkTerm exprs)) = .ok (List.range' b.2 b.1.columns.length) ∧
+    (termIndices st).getDefault (.term (mkTerm exprs)) = .ok (some (List.range' b.2 b.1.columns.length)) ∧
+    getSliceAny st (.term (mkTerm exprs)) =
+      .ok (PySlice.ofNats (sliceOf (List.range' b.2 b.1.columns.length))) := by
+  have hs : sortStrs (mkTerm exprs) = sortStrs b.1.term := sortStrs_mkTerm (hn _ (mem_blocks_row hb)) hu
+  obtain ⟨g1, _, _, g4⟩ := (lookup_by_term st h).1 b hb (mkTerm exprs) hs
+  refine ⟨g1, (term_mapping_get _ _).1 _ g1, ?_⟩
+  simp [getSliceAny, g4, Except.map]
+
+example : TermsNodup demo := by decide
+example : (termIndices demo).get (.term (mkTerm [['A'], ['B'], ['A'], ['B'], ['B']])) = .ok [1, 2] := by decide
+
+/-! ## the order of a request; when `subset` succeeds; any order -/
+
+/-- C10.13  The order of a requested term list (`SimpleFormula(terms, _ordering=…)`): the default
+ordering is a STABLE sort by degree — a rearrangement of the request, degrees never decreasing, terms
+of one degree in the order they were given —; `ordering="none"` keeps the request as it is;
+`ordering="sort"` is a rearrangement of the terms with their factors sorted. -/
+theorem request_order (ts : List ReqTerm) :
+    (orderTerms .degree ts).Perm ts ∧
+    (orderTerms .degree ts).Pairwise (fun a b => a.degree ≤ b.degree) ∧
+    (∀ d, (orderTerms .degree ts).filter (fun t => t.degree == d) = ts.filter (fun t => t.degree == d)) ∧
+    orderTerms .none ts = ts ∧
+    (orderTerms .sort ts).Perm (ts.map ReqTerm.sortFactors) :=
+  ⟨sortByDegree_perm ts, sortByDegree_sorted ts, sortByDegree_stable ts, rfl, sortByTermLt_perm _⟩
+
+/-- `["b:A", "a", "1", "x"]` with the literal `1`: `1` first, then the degree-1 terms in the order given -/
+example : (orderTerms .degree [⟨[['b'], ['A']], [false, false]⟩, ⟨[['a']], [false]⟩, ⟨[['1']], [true]⟩,
+      ⟨[['x']], [false]⟩]).map (·.term) = [[['1']], [['a']], [['x']], [['b'], ['A']]] := by decide
+
+/-- the formula and the structure of a materialized spec hold the same terms -/
+def SameTerms (F : List Term) (st : Structure) : Prop :=
+  ∀ t : Term, (∃ u ∈ F, sortStrs t = sortStrs u) ↔ ∃ r ∈ st, sortStrs r.term = sortStrs t
+
+/-- C10.5b  When `subset` succeeds. For a spec whose formula and structure hold the same, pairwise
+different terms, `subset(spec)` succeeds exactly when every requested term is one of them — whatever
+the order of the request, the factor order inside a term, repetitions — and then returns, request by
+request, the parent's row of that term (`rowOf`); otherwise it raises `ValueError` (never a
+`KeyError` from the internal dict). -/
+theorem subset_succeeds_iff (F : List Term) (st : Structure) (spec : List Term) (h : DistinctTerms st)
+    (hF : SameTerms F st) :
+    ((∀ t ∈ spec, ∃ r ∈ st, sortStrs r.term = sortStrs t) →
+      subset F st spec = .ok (spec.filterMap (rowOf st)) ∧
+      Pointwise (fun t r => r ∈ st ∧ sortStrs r.term = sortStrs t) spec (spec.filterMap (rowOf st))) ∧
+    ((∃ t ∈ spec, ∀ r ∈ st, sortStrs r.term ≠ sortStrs t) → subset F st spec = .error .valueError) := by
+  constructor
+  · intro hS
+    have hok := (subset_ok F st spec h (fun t ht => (hF t).mpr (hS t ht)) hS).1
+    exact ⟨hok, (subset_regenerates F st spec _ h hok).1⟩
+  · rintro ⟨t, ht, hne⟩
+    apply subset_err
+    refine ⟨t, ht, ?_⟩
+    intro u hu e
+    obtain ⟨r, hr, er⟩ := (hF t).mp ⟨u, hu, e⟩
+    exact hne r hr er
+
+example : SameTerms (demo.map (·.term)) demo := by
+  intro t
+  constructor
+  · rintro ⟨u, hu, e⟩
+    obtain ⟨r, hr, rfl⟩ := List.mem_map.mp hu
+    exact ⟨r, hr, e.symm⟩
+  · rintro ⟨r, hr, e⟩
+    exact ⟨r.term, List.mem_map_of_mem hr, e.symm⟩
+
+/-- C10.5c  The request in any order, written in any way. Two requests that name the same terms —
+in a different order, with the factors of a term in a different order — select the same rows: the
+two subsets are rearrangements of each other (and each follows the order of its own request, C10.5);
+a request that names every term of the spec in the spec's order returns the spec's structure. -/
+theorem subset_any_order (F : List Term) (st : Structure) (h : DistinctTerms st) (hF : SameTerms F st)
+    (spec spec' : List Term) (sub sub' : Structure)
+    (hperm : (spec'.map sortStrs).Perm (spec.map sortStrs))
+    (hs : subset F st spec = .ok sub) (hs' : subset F st spec' = .ok sub') :
+    sub'.Perm sub ∧ subset F st (st.map (·.term)) = .ok st := by
+  constructor
+  · have e1 := pointwise_rows_eq h (subset_regenerates F st spec sub h hs).1
+    have e2 := pointwise_rows_eq h (subset_regenerates F st spec' sub' h hs').1
+    let rk : List Str → Option Row := fun k => st.find? (fun r => sortStrs r.term == k)
+    have hk : ∀ l : List Term, l.filterMap (rowOf st) = (l.map sortStrs).filterMap rk := by
+      intro l
+      rw [List.filterMap_map]
+      rfl
+    rw [e1, e2, hk spec, hk spec']
+    exact hperm.filterMap rk
+  · have hS : ∀ t ∈ st.map (·.term), ∃ r ∈ st, sortStrs r.term = sortStrs t := by
+      intro t ht
+      obtain ⟨r, hr, rfl⟩ := List.mem_map.mp ht
+      exact ⟨r, hr, rfl⟩
+    rw [((subset_succeeds_iff F st _ h hF).1 hS).1]
+    congr 1
+    have gen : ∀ (l : Structure), (∀ r ∈ l, r ∈ st) → (l.map (·.term)).filterMap (rowOf st) = l := by
+      intro l
+      induction l with
+      | nil => intro _; rfl
+      | cons r l ih =>
+        intro hl
+        rw [List.map_cons, List.filterMap_cons, rowOf_eq h (hl r (by simp)) rfl,
+          ih (fun x hx => hl x (List.mem_cons_of_mem _ hx))]
+    exact gen st (fun r hr => hr)
+
+/-- C10.5d  `ModelSpec.subset` from the request to the new spec, for every way of writing the
+request and every `ordering=`: a structured request raises `ValueError`; otherwise with `spec` the
+term list after the ordering step (`specTerms`: a `SimpleFormula` as it is; a parsed string / list of
+strings / list of `Term`s ordered by `orderTerms`, C10.13) — if every term of `spec` is a term of the
+parent the result is a spec whose structure holds, in that order, the parent's rows of those terms
+and whose FORMULA holds the parent's OWN terms (own factor order, own factor objects: what the subset
+evaluates when it regenerates is what the parent evaluated); if some term is foreign: `ValueError`.
+On a spec that was never materialized a request of own terms raises `RuntimeError`. -/
+theorem spec_subset (sp : Spec) (o : FormulaicVerif.Model.SpecMeta.Ordering) (p : ParsedSpec) :
+    (p = .structured → sp.subset o p = .error .valueError) ∧
+    (∀ spec, specTerms o p = .ok spec →
+      ((∃ t ∈ spec, ∀ u ∈ sp.formula, sortStrs t ≠ sortStrs u) → sp.subset o p = .error .valueError) ∧
+      ((∀ t ∈ spec, ∃ u ∈ sp.formula, sortStrs t = sortStrs u) → sp.structure? = none →
+        sp.subset o p = .error .runtimeError) ∧
+      (∀ st, sp.structure? = some st → DistinctTerms st → DistinctF sp.formula → SameTerms sp.formula st →
+        (∀ t ∈ spec, ∃ r ∈ st, sortStrs r.term = sortStrs t) →
+        ∃ sub, sp.subset o p = .ok sub ∧
+          sub.structure? = some (spec.filterMap (rowOf st)) ∧
+          Pointwise (fun t r => r ∈ st ∧ sortStrs r.term = sortStrs t) spec (spec.filterMap (rowOf st)) ∧
+          Pointwise (fun t own => own ∈ sp.formula ∧ sortStrs own = sortStrs t) spec sub.formula ∧
+          sub.enc = sp.enc)) := by
+  constructor
+  · rintro rfl; rfl
+  · intro spec hspec
+    refine ⟨?_, ?_, ?_⟩
+    · intro hbad
+      unfold Spec.subset
+      rw [hspec]
+      simp only [bind, Except.bind]
+      rw [restricted_err _ _ hbad]
+    · intro hgood hnone
+      unfold Spec.subset
+      rw [hspec]
+      simp only [bind, Except.bind]
+      rw [(restricted_iff _ _).mpr hgood]
+      simp [Spec.st, hnone]
+    · intro st hst h hF hsame hS
+      have hgood : ∀ t ∈ spec, ∃ u ∈ sp.formula, sortStrs t = sortStrs u := fun t ht => (hsame t).mpr (hS t ht)
+      obtain ⟨hok, hpw⟩ := (subset_succeeds_iff sp.formula st spec h hsame).1 hS
+      obtain ⟨own, hown, hpo⟩ := ownTerms_mapM sp.formula hF spec hgood
+      refine ⟨{ formula := own, structure? := some (spec.filterMap (rowOf st)), enc := sp.enc }, ?_, rfl, hpw, hpo, rfl⟩
+      unfold Spec.subset
+      rw [hspec]
+      simp only [bind, Except.bind]
+      rw [(restricted_iff _ _).mpr hgood]
+      simp only [Spec.st, hst, hok, hown]
+      rfl
+
+/-- the demo spec asked for `["G", "A:B"]` (strings, default ordering) and for the same as a
+`SimpleFormula`: rows `G`, `B:A` — the formula of the subset holds the parent's `B:A`, not `A:B` -/
+example : ((Spec.subset ⟨demo.map (·.term), some demo, []⟩ .degree
+      (.terms [⟨[['G']], [false]⟩, ⟨[['A'], ['B']], [false, false]⟩])).toOption.map (·.formula))
+      = some [[['G']], [['B'], ['A']]] ∧
+    ((Spec.subset ⟨demo.map (·.term), some demo, []⟩ .degree
+      (.formula [[['A'], ['B']], [['G']]])).toOption.map (·.formula)) = some [[['B'], ['A']], [['G']]] ∧
+    (Spec.subset ⟨demo.map (·.term), none, []⟩ .degree (.formula [[['G']]])).toOption.isNone = true := by decide
+
+example : DistinctF (demo.map (·.term)) := by decide
+
+
+/-! ## `ModelSpecs.subset` -/
+
+section Specs
+open FormulaicVerif.Model.St FormulaicVerif.Model.SpecsMeta
+
+/-- C10.14  `ModelSpecs.subset`. (a) One request part: `self[path].subset(part)` — what is found at
+the path must be a `ModelSpec` (then the outcome is `ModelSpec.subset` with the part's terms as they
+are, a `KeyError` turned into `ValueError`); a tuple there raises `AttributeError`, a nested
+`ModelSpecs` `ValueError`; a path that leaves the structure raises `ValueError`, an index beyond a
+tuple `IndexError`. (b) A request without structure raises `ValueError`. (c) When the call succeeds the
+request is structured, the result is exactly `_map` of the request (`St.mapV`: same keys, `root`
+moved last, same tuples, hence the request's shape) with, at every part, the subset of the spec found
+at the SAME path — so C10.5 applies part by part. (d) When it fails the exception is the exception
+of one of the parts. -/
+theorem specs_subset_leafwise (specs : Val Spec) (parsed : Val (List Term)) :
+    (∀ terms path, leafSubset specs terms path =
+      match lookupPathPy path specs with
+      | .ok (.leaf sp) => keyToValue (sp.subset .degree (.formula terms))
+      | .ok (.tup _) => .error .attributeError
+      | .ok (.node _) => .error .valueError
+      | .error .keyError => .error .valueError
+      | .error e => .error e) ∧
+    ((∀ kvs, parsed ≠ .node kvs) → specsSubset specs parsed = .error .valueError) ∧
+    (∀ out, specsSubset specs parsed = .ok out →
+      (∃ kvs, parsed = .node kvs) ∧
+      ∃ g : List Term → Path → Spec, out = mapV g [] parsed ∧ shape out = shape (norm parsed) ∧
+        ∀ p ∈ flattenP [] parsed, ∃ sp, lookupPathPy p.2 specs = .ok (.leaf sp) ∧
+          sp.subset .degree (.formula p.1) = .ok (g p.1 p.2)) ∧
+    (∀ e, specsSubset specs parsed = .error e → (∃ kvs, parsed = .node kvs) →
+      ∃ p ∈ flattenP [] parsed, leafSubset specs p.1 p.2 = .error e) := by
+  have hleaf : ∀ terms path, leafSubset specs terms path =
+      match lookupPathPy path specs with
+      | .ok (.leaf sp) => keyToValue (sp.subset .degree (.formula terms))
+      | .ok (.tup _) => .error .attributeError
+      | .ok (.node _) => .error .valueError
+      | .error .keyError => .error .valueError
+      | .error e => .error e := by
+    intro terms path
+    unfold leafSubset
+    cases hl : lookupPathPy path specs with
+    | ok target => cases target <;> simp [bind, Except.bind, keyToValue]
+    | error e => cases e <;> simp [bind, Except.bind, keyToValue]
+  refine ⟨hleaf, ?_, ?_, ?_⟩
+  · intro hn
+    cases parsed with
+    | node kvs => exact absurd rfl (hn kvs)
+    | leaf _ => rfl
+    | tup _ => rfl
+  · intro out hout
+    cases parsed with
+    | leaf _ => cases hout
+    | tup _ => cases hout
+    | node kvs =>
+      refine ⟨⟨kvs, rfl⟩, ?_⟩
+      simp only [specsSubset] at hout
+      obtain ⟨g, hg, hall⟩ := mapE_ok_eq _ _ _ _ hout
+      refine ⟨g, hg, by rw [hg]; exact FormulaicVerif.Proofs.C19.shape_mapV g _ _, ?_⟩
+      intro p hp
+      have h1 := hall p hp
+      rw [hleaf] at h1
+      cases hl : lookupPathPy p.2 specs with
+      | error e => rw [hl] at h1; cases e <;> cases h1
+      | ok target =>
+        rw [hl] at h1
+        cases target with
+        | leaf sp => exact ⟨sp, rfl, (keyToValue_ok _ _).mp h1⟩
+        | tup _ => cases h1
+        | node _ => cases h1
+  · intro e he hn
+    obtain ⟨kvs, rfl⟩ := hn
+    simp only [specsSubset] at he
+    exact mapE_err_leaf _ _ _ _ he
+
+/-- `y ~ 1 + a | A` (a spec per part) subset by `{lhs: [y], rhs: ([a], [A])}`: part by part -/
+def demoSpecs : Val Spec :=
+  .node [("lhs", .leaf ⟨[[['y']]], some [⟨[['y']], [[sf ['y'] [dv ['y']]]], [['y']]⟩], []⟩),
+         ("rhs", .tup [
+           .leaf ⟨[[['1']], [['a']]], some [⟨[['1']], [[]], [['I']]⟩, ⟨[['a']], [[sf ['a'] [dv ['a']]]], [['a']]⟩], []⟩,
+           .leaf ⟨[[['A']]], some [⟨[['A']], [[sf ['A'] [dv ['A']]]], [['A', 'x'], ['A', 'y']]⟩], []⟩])]
+
+def outNames : Except PyErr (Val Spec) → Except PyErr (List (List Str))
+  | .ok v => .ok ((flatten v).map (fun sp => match sp.structure? with | some st => columnNames st | none => []))
+  | .error e => .error e
+
+example : outNames (specsSubset demoSpecs (.node [("lhs", .leaf [[['y']]]), ("rhs", .tup [.leaf [[['a']]], .leaf [[['A']]]])]))
+      = .ok [[['y']], [['a']], [['A', 'x'], ['A', 'y']]] ∧
+    -- a third part: the tuple of specs has only two
+    outNames (specsSubset demoSpecs (.node [("rhs", .tup [.leaf [], .leaf [], .leaf []])])) = .error .indexError ∧
+    -- a part where the specs have a tuple
+    outNames (specsSubset demoSpecs (.node [("rhs", .leaf [[['a']]])])) = .error .attributeError ∧
+    -- a key the specs do not have / a tuple where the specs have one spec / a foreign term / no structure
+    outNames (specsSubset demoSpecs (.node [("zzz", .leaf [])])) = .error .valueError ∧
+    outNames (specsSubset demoSpecs (.node [("lhs", .tup [.leaf []])])) = .error .valueError ∧
+    outNames (specsSubset demoSpecs (.node [("lhs", .leaf [[['q']]])])) = .error .valueError ∧
+    outNames (specsSubset demoSpecs (.leaf [[['a']]])) = .error .valueError := by decide
+
+
+/-- C10.14b  `ModelSpecs.required_variables` is the union of the parts' `required_variables`
+(C10.10: the variables each part draws from the data), every name once. -/
+theorem specs_required_variables (leaves : List Structure) :
+    (specsRequiredVariables leaves).Nodup ∧
+    ∀ v, v ∈ specsRequiredVariables leaves ↔ ∃ st ∈ leaves, v ∈ requiredVariables st := by
+  have he : specsRequiredVariables leaves = unionStrs (leaves.map requiredVariables) := by
+    unfold specsRequiredVariables unionStrs
+    rw [List.foldl_map]
+  rw [he]
+  refine ⟨nodup_unionStrs _, fun v => ?_⟩
+  rw [mem_unionStrs]
+  constructor
+  · rintro ⟨s, hs, hv⟩
+    obtain ⟨st, hst, rfl⟩ := List.mem_map.mp hs
+    exact ⟨st, hst, hv⟩
+  · rintro ⟨st, hst, hv⟩
+    exact ⟨_, List.mem_map_of_mem hst, hv⟩
+
+end Specs
+/-! ## the finite tables of the model against the live package -/
+
+/-- C10.15  What the model copies from the code is what the live package holds (regenerated into
+`Gen/SpecMetaTable.lean` on every run): the pattern of `Term.FACTOR_MATCHER` is the one `matchFactors`
+models (no flags); and for every registered materializer and output, a matrix whose columns repeat a
+label keeps every column exactly when the model assembles that combination by position
+(`combineMode … = .list`). -/
+theorem tables_live :
+    Gen.SpecMetaTable.factorMatcherPattern = factorMatcherPattern ∧
+    Gen.SpecMetaTable.factorMatcherFlags = 0 ∧
+    (∀ e ∈ Gen.SpecMetaTable.keepsRepeatedLabels,
+      ∃ m o, Materializer.ofName e.1 = some m ∧ Output.ofName e.2.1 = some o ∧
+        (combineMode m o == .list) = e.2.2) ∧
+    Gen.SpecMetaTable.keepsRepeatedLabels.length = 7 := by
+  refine ⟨by decide, by decide, ?_, by decide⟩
+  intro e he
+  simp only [Gen.SpecMetaTable.keepsRepeatedLabels, List.mem_cons, List.mem_nil_iff, or_false] at he
+  rcases he with rfl | rfl | rfl | rfl | rfl | rfl | rfl <;> exact ⟨_, _, rfl, rfl, rfl⟩
+
 
 end FormulaicVerif.Props.C10
